@@ -1,10 +1,180 @@
 import Tapeverif.Model.Basic
 import Tapeverif.Model.Codec
 import Tapeverif.Model.Float
+import Tapeverif.Model.Hash
+import Tapeverif.Model.Ed25519
+import Tapeverif.Model.Auth
 /-! Line-protocol driver: one request per line on stdin, one reply per line on stdout. -/
 open TV
 
 def parseInt? (s : String) : Option Int := s.toInt?
+
+def hx (b : Bytes) : String := if b = [] then "-" else toHex b
+
+def showR (r : R Bytes) : String :=
+  match r with
+  | .ok b => hx b
+  | .error e => "ERR:" ++ e.name
+
+def showRB (r : R Bool) : String :=
+  match r with
+  | .ok b => if b then "T" else "F"
+  | .error e => "ERR:" ++ e.name
+
+def prim (f : String) (args : List Bytes) : String :=
+  let C := Ed.curve
+  let H := Ed.hashes
+  match f, args with
+  | "is_valid_point", [a] => showRB (Sodium.isValidPoint C a)
+  | "core_add", [a, b] => showR (Sodium.coreAdd C a b)
+  | "core_sub", [a, b] => showR (Sodium.coreSub C a b)
+  | "base_noclamp", [a] => showR (Sodium.baseNoclamp C a)
+  | "mult_noclamp", [a, b] => showR (Sodium.multNoclamp C a b)
+  | "scalar_add", [a, b] => showR (Sodium.scalarAdd a b)
+  | "scalar_sub", [a, b] => showR (Sodium.scalarSub a b)
+  | "scalar_mul", [a, b] => showR (Sodium.scalarMul a b)
+  | "scalar_reduce", [a] => showR (Sodium.scalarReduce a)
+  | "clamp0", [a] => showR (Sodium.clampScalar a false)
+  | "clamp1", [a] => showR (Sodium.clampScalar a true)
+  | "h_small", [a] => showR (Sodium.hSmall H a)
+  | "derive_key", [a] => showR (Sodium.deriveKeyFromSeed H a)
+  | "sign", [seed, m] => hx (Sodium.sign H C seed m)
+  | "pubkey", [seed] => hx (Sodium.publicKey H C seed)
+  | "verify", [pk, m, sg] => if Sodium.verify H C pk m sg then "T" else "F"
+  | "sign_with_scalar", [x, m] => showR (Sodium.signWithScalar H C x m)
+  | "aggregate_points", pts => showR (Sodium.aggregatePoints C pts)
+  | _, _ => "bad-op"
+
+/-! ### RUN / AUTH protocol -/
+def parseAtom (s : String) : Option Atom :=
+  let body := (s.drop 1).toString
+  match s.front with
+  | 'B' => (ofHex body).map Atom.bytes
+  | 'S' => (ofHex body).map Atom.str
+  | 'A' => (ofHex body).map Atom.bytearray
+  | 'I' => body.toInt?.map Atom.int
+  | 'F' => (ofHex body).map fun b => Atom.float (natOfBytesBE b)
+  | 'O' => some Atom.other
+  | _ => none
+
+def parseVal (s : String) : Option CVal :=
+  if s.front = 'L' then
+    let body := (s.drop 1).toString
+    if body = "" then some (.list [])
+    else ((body.splitOn ",").mapM parseAtom).map CVal.list
+  else (parseAtom s).map CVal.atom
+
+def parseKey (s : String) : Option CKey :=
+  let body := (s.drop 1).toString
+  match s.front with
+  | 's' => (ofHex body).map CKey.str
+  | 'b' => (ofHex body).map CKey.byt
+  | _ => none
+
+def parseCache (s : String) : Option (List (CKey × CVal)) :=
+  if s = "-" then some []
+  else (s.splitOn ";").mapM fun e =>
+    match e.splitOn "=" with
+    | [k, v] => do pure (← parseKey k, ← parseVal v)
+    | _ => none
+
+def parseOptInt (s : String) : Option (Option Int) :=
+  if s = "x" then some none else s.toInt?.map some
+
+def parseSigExts (s : String) : Option (List SigExt) :=
+  if s = "-" then some []
+  else (s.splitOn ",").mapM fun e =>
+    if e = "r" then some SigExt.raise
+    else if e.front = 'l' then (e.drop 1).toString.toNat?.map SigExt.log else none
+
+def parseCT (s : String) : Option (List CTPlugin) :=
+  if s = "-" then some []
+  else (s.splitOn ",").mapM fun e =>
+    match e with
+    | "T" => some .constTrue | "F" => some .constFalse | "P" => some .isPrefix | "E" => some .equal
+    | _ => none
+
+def parseContracts (s : String) : Option (List (Bytes × Contract)) :=
+  if s = "-" then some []
+  else (s.splitOn ",").mapM fun e =>
+    match e.splitOn "=" with
+    | [id, kd] => do
+      let i ← ofHex id
+      let c ← (match kd with
+        | "e" => some Contract.echo | "n" => some .none_ | "c" => some .concat | "i" => some .badItem
+        | "t" => some .badType | "x" => some .transfer | "b" => some .both | "z" => some .neither
+        | _ => none)
+      pure (i, c)
+    | _ => none
+
+def parseCfg (s : String) : Option Cfg :=
+  match s.splitOn ":" with
+  | [mi, ms, cl, now, mask, ts, ep, de, er, se, ct, cs] => do
+    let mask ← mask.toNat?
+    pure { lim := { maxItems := ← mi.toNat?, maxItemSize := ← ms.toNat?, callLimit := ← cl.toNat? },
+           now := ← now.toInt?,
+           flags := (List.range 11).map fun i => (i, mask / 2^i % 2 = 1),
+           flag10 := mask / 2^10 % 2 = 1,
+           tsThreshold := ← parseOptInt ts, epochThreshold := ← parseOptInt ep,
+           disallowEval := de = "1", evalReturn := er = "1",
+           sigExts := ← parseSigExts se, ctPlugins := ← parseCT ct, contracts := ← parseContracts cs }
+  | _ => none
+
+def showAtom : Atom → String
+  | .bytes b => "B" ++ toHex b
+  | .str b => "S" ++ toHex b
+  | .bytearray b => "A" ++ toHex b
+  | .int i => "I" ++ toString i
+  | .float d => "F" ++ toHex (natToBytesBE 8 d)
+  | .other => "O"
+
+def showVal : CVal → String
+  | .atom a => showAtom a
+  | .list l => "L" ++ ",".intercalate (l.map showAtom)
+
+def showKey : CKey → String
+  | .str b => "s" ++ toHex b
+  | .byt b => "b" ++ toHex b
+
+def dedupCache : List (CKey × CVal) → List CKey → List (CKey × CVal)
+  | [], _ => []
+  | (k, v) :: r, seen => if seen.contains k then dedupCache r seen else (k, v) :: dedupCache r (k :: seen)
+
+def showCache (c : List (CKey × CVal)) : String :=
+  let es := (dedupCache c []).map fun (k, v) => showKey k ++ "=" ++ showVal v
+  let sorted := es.toArray.qsort (· < ·) |>.toList
+  if sorted = [] then "-" else ";".intercalate sorted
+
+def showStack (st : List Bytes) : String :=
+  if st = [] then "-" else ",".intercalate (st.reverse.map fun b => if b = [] then "e" else toHex b)
+
+def showShared (sh : Shared) (cnt : Nat) : String :=
+  " stack=" ++ showStack sh.stack ++ " cache=" ++ showCache sh.cache ++
+  " ret=" ++ (if sh.returned then "1" else "0") ++
+  " plog=" ++ (if sh.plog = [] then "-" else ",".intercalate (sh.plog.reverse.map toString)) ++
+  " taint=" ++ (if sh.tainted then "1" else "0") ++ " cnt=" ++ toString cnt ++
+  " rand=" ++ toString sh.randCtr
+
+def showRes : Res → String
+  | .ok fr sh => "OK" ++ showShared sh fr.count
+  | .err (.user e) sh => "ERR:" ++ e.name ++ showShared sh 0
+  | .err .fuel _ => "FUEL"
+  | .err .ghost _ => "GHOST"
+  | .err .guard _ => "GUARD"
+
+def bigFuel : Nat := 1000000000000
+
+def runCmd (cfgS cacheS scriptsS : String) (auth : Bool) : String :=
+  match parseCfg cfgS, parseCache cacheS, (scriptsS.splitOn ",").mapM ofHex with
+  | some cfg, some cache, some scripts =>
+    let T := instrTable Ed.hashes Ed.curve cfg
+    if auth then
+      (if runAuth T cfg.lim bigFuel scripts cache then "T " else "F ") ++
+        showRes (runAuthRes T cfg.lim bigFuel scripts cache)
+    else match scripts with
+      | [s] => showRes (runScript T cfg.lim bigFuel s cache)
+      | _ => "bad-op"
+  | _, _, _ => "bad-op"
 
 def handle (line : String) : String :=
   match (line.splitOn " ").filter (· ≠ "") with
@@ -43,6 +213,21 @@ def handle (line : String) : String :=
       | some b => match utf8Decode b with
           | some cps => toString cps.length ++ " " ++ (let e := toHex (utf8Encode cps); if e = "" then "-" else e)
           | none => "ERR:UnicodeDecodeError"
+      | none => "bad-op"
+  | ["SHA256", h] => match ofHex h with
+      | some b => toHex (Hash.sha256 b)
+      | none => "bad-op"
+  | ["SHA512", h] => match ofHex h with
+      | some b => toHex (Hash.sha512 b)
+      | none => "bad-op"
+  | ["SHAKE256", n, h] => match ofHex h, n.toNat? with
+      | some b, some k => let r := toHex (Hash.shake256 b k); if r = "" then "-" else r
+      | _, _ => "bad-op"
+  | ["RUN", c, ca, sc] => runCmd c ca sc false
+  | ["AUTH", c, ca, sc] => runCmd c ca sc true
+  | "PRIM" :: f :: args =>
+      match args.mapM ofHex with
+      | some bs => prim f bs
       | none => "bad-op"
   | _ => "bad-op"
 
